@@ -29,11 +29,11 @@ func (c11) Size(tier string) Size {
 const c11shared = 150 // specs marshaled by EVERY child process (digests compared by the parent)
 
 func (c11) Rule() string {
-	return "case = document + URL spec (as in C02-C04, distinct IDs) marshaled R times in-process (quick 20, thorough 100) alternately from freshly materialised equal-content inputs and from the same objects again, plus P permutations (to-many ID order, names inside the field selection and relationship-data lists, included order) which must all give byte-identical output; MarshalResource alone likewise; a fixed shared corpus of 150 specs is marshaled by every child process (separate hash seeds; in thorough one child is built with go1.26.8, another map implementation) and the parent compares the digests. A hook (build tag verif) records the actual key sequence of each map-ranging loop of MarshalResource / URL.String, so the evidence states how many distinct iteration orders were really walked. After marshaling, every Get value, the selection / relationship-data lists and the included list are compared (as sets where the statement allows reordering) with a snapshot taken before. Non-trivial = document whose resources have >= 2 attributes, >= 2 to-many IDs or >= 2 included; distinct = spec hash."
+	return "case = document + URL spec (as in C02-C04, also relationship URLs; 1 in 4 with included resources of different types sharing an ID, which are marshaled repeatedly but whose included list is not permuted) marshaled R times in-process (quick 20, thorough 100) alternately from freshly materialised equal-content inputs and from the same objects again, plus P permutations (to-many ID order, names inside the field selection and relationship-data lists, included order) which must all give byte-identical output; MarshalResource alone likewise; a fixed shared corpus of 150 specs is marshaled by every child process (separate hash seeds; in thorough one child is built with go1.26.8, another map implementation) and the parent compares the digests. A hook (build tag verif) records the actual key sequence of each map-ranging loop of MarshalResource / URL.String, so the evidence states how many distinct iteration orders were really walked. After marshaling, every Get value, the selection / relationship-data lists and the included list are compared (as sets where the statement allows reordering) with a snapshot taken before. Non-trivial = document whose resources have >= 2 attributes, >= 2 to-many IDs or >= 2 included; distinct = spec hash."
 }
 func (c11) Assumptions() []string {
 	return []string{"map iteration order is chosen by the Go runtime and cannot be enumerated: it is sampled by repetition and by separate processes, and the sample is reported (distinct orders per hook site)",
-		"included resources have distinct IDs (the statement's precondition for reordering them)"}
+		"the included list is permuted only when its resources have distinct IDs (the statement's precondition for reordering them); lists in which resources of different types share an ID are marshaled repeatedly without reordering"}
 }
 func (c11) Floors(tier string, c map[string]int64) []string {
 	var out []string
@@ -129,7 +129,14 @@ func (d *DocSpec) permuted(r *RNG) *DocSpec {
 		n.Primary = append(n.Primary, perm(rs))
 	}
 	n.Included = make([]*ResSpec, len(d.Included))
-	for i, j := range r.Perm(len(d.Included)) {
+	order := r.Perm(len(d.Included))
+	if includedShareAnID(d) {
+		// the statement allows reordering included resources "with distinct IDs" only
+		for i := range order {
+			order[i] = i
+		}
+	}
+	for i, j := range order {
 		n.Included[i] = perm(d.Included[j])
 	}
 	n.Fields = map[string][]string{}
@@ -141,6 +148,17 @@ func (d *DocSpec) permuted(r *RNG) *DocSpec {
 		n.RelData[k] = shuffleStrings(r, v)
 	}
 	return &n
+}
+
+func includedShareAnID(d *DocSpec) bool {
+	seen := map[string]bool{}
+	for _, rs := range d.Included {
+		if seen[rs.ID] {
+			return true
+		}
+		seen[rs.ID] = true
+	}
+	return false
 }
 
 type c11snap struct {
@@ -315,7 +333,7 @@ func (m c11) check(c *Ctx, d *DocSpec, r *RNG, reps, perms int) (string, bool) {
 	}
 	// the SAME document again after its included list was permuted in place (same length), and a copy of the
 	// Document value with a permuted list
-	if same != nil && len(same.Doc.Included) >= 2 {
+	if same != nil && len(same.Doc.Included) >= 2 && !includedShareAnID(d) {
 		for round := 0; round < 3; round++ {
 			var out []byte
 			ok := true
@@ -439,6 +457,29 @@ func (m c11) Case(c *Ctx, r *RNG) {
 				if len(v) >= 2 && r.Bool() {
 					rs.ToMany[k] = append(append([]string{}, v...), v[r.Intn(len(v))])
 					c.Count("to_many_with_repeated_id")
+				}
+			}
+		}
+	}
+	// included resources of different types that have the same ID (users/1 and articles/1): repeated marshals are
+	// still byte-identical; only the reordering clause is limited to distinct IDs
+	if r.Chance(1, 4) && len(d.Included) >= 2 {
+		for tries := 0; tries < 6; tries++ {
+			i, j := r.Intn(len(d.Included)), r.Intn(len(d.Included))
+			if d.Included[i].Type == d.Included[j].Type {
+				continue
+			}
+			clash := false
+			for _, rs := range d.allResources() {
+				if rs.Type == d.Included[j].Type && rs.ID == d.Included[i].ID {
+					clash = true
+				}
+			}
+			if !clash {
+				d.Included[j].ID = d.Included[i].ID
+				c.Count("included_sharing_an_id_across_types")
+				if r.Bool() {
+					break
 				}
 			}
 		}
